@@ -104,6 +104,13 @@ def cmdBatch (m : List (String × String)) : Option String := do
   | none => pure "err"
   | some r => pure s!"ok masks={if r.isEmpty then "-" else String.ofList (r.map (fun b => if b then '1' else '0'))}"
 
+def cmdDecode (m : List (String × String)) : Option String := do
+  let h ← get m "hex"
+  let bs ← if h == "-" then some [] else hexToBytes h
+  match Codec.decode bs with
+  | none => pure "err"
+  | some p => pure s!"ok reenc={bytesToHex (Codec.encode p)} rounds={p.li.length} tag={p.tag}"
+
 def step (line : String) : String :=
   let line := line.trimAscii.toString
   match line.splitOn " " with
@@ -114,6 +121,7 @@ def step (line : String) : String :=
       | "verify" => cmdVerify m
       | "recover" => cmdRecover m
       | "batch" => cmdBatch m
+      | "decode" => cmdDecode m
       | _ => none
     match r with
     | some s => s
